@@ -5,9 +5,9 @@ From CG Require Import Base.Prelude Model.Dfa Model.Glob Model.BashSem Proofs.Gl
 Definition lits_of (T : tables) : list (N * string) := indexed_from 0 (literal_texts T).
 
 (** one round of the while loop *)
-Lemma sw_loop_S fuel v complete tabs e T word state ci log :
-  sw_loop (S fuel) v complete tabs e T word state ci log =
-  if Nat.leb (String.length word) ci then Ok (true, state, ci, log)
+Lemma sw_loop_S fuel v complete tabs e T acc word state ci log :
+  sw_loop (S fuel) v complete tabs e T acc word state ci log =
+  if Nat.leb (String.length word) ci then Ok (quirky v || complete || memN state acc, state, ci, log)
   else
     let sub := sdrop ci word in
     do s1 <- match assocN state (t_mlit T) with
@@ -15,7 +15,7 @@ Lemma sw_loop_S fuel v complete tabs e T word state ci log :
              | None => Ok SNone
              end;
     match s1 with
-    | SCont st adv => sw_loop fuel v complete tabs e T word st (ci + adv) log
+    | SCont st adv => sw_loop fuel v complete tabs e T acc word st (ci + adv) log
     | SBreak => Ok (false, state, ci, log)
     | SNone =>
       do (s2, log2) <- match t_mcmd T with
@@ -27,7 +27,7 @@ Lemma sw_loop_S fuel v complete tabs e T word state ci log :
                        | None => Ok (SNone, log)
                        end;
       match s2 with
-      | SCont st adv => sw_loop fuel v complete tabs e T word st (ci + adv) log2
+      | SCont st adv => sw_loop fuel v complete tabs e T acc word st (ci + adv) log2
       | SBreak => Ok (false, state, ci, log2)
       | SNone =>
         match t_mstar T with
@@ -79,14 +79,15 @@ Proof. intros [H|[H1 H2]]; [now left|right]. split; [exact H1|now apply plain_sd
 
 (** *** (a) a fully typed value is recognised *)
 Theorem fixed_value_recognised :
-  forall var fuel tabs e T word s st ci v to log,
+  forall var fuel tabs e T acc word s st ci v to log,
     var <> Pinned -> strdom var (lits_of T) word -> sorted_desc (lits_of T) ->
     assocN s (t_mlit T) = Some st ->
     sdrop ci word = v -> (ci < String.length word)%nat ->
     first_enabled (lits_of T) st v = Some to ->
-    sw_loop (S (S fuel)) var false tabs e T word s ci log = Ok (true, to, String.length word, log).
+    quirky var || memN to acc = true ->
+    sw_loop (S (S fuel)) var false tabs e T acc word s ci log = Ok (true, to, String.length word, log).
 Proof.
-  intros var fuel tabs e T word s st ci v to log Hvar Hdom Hs Hst Hv Hci Hf.
+  intros var fuel tabs e T acc word s st ci v to log Hvar Hdom Hs Hst Hv Hci Hf Hacc.
   rewrite sw_loop_S.
   assert (Nat.leb (String.length word) ci = false) as -> by (apply Nat.leb_gt; exact Hci).
   pose proof (strdom_sdrop var _ word ci Hdom) as Hd. rewrite Hv in Hd.
@@ -97,20 +98,20 @@ Proof.
   rewrite sw_loop_S.
   assert (L : (ci + String.length v = String.length word)%nat).
   { rewrite <- Hv, sdrop_length. lia. }
-  rewrite L. rewrite Nat.leb_refl. reflexivity.
+  rewrite L. rewrite Nat.leb_refl. rewrite orb_false_r, Hacc. reflexivity.
 Qed.
 
 (** *** the pinned loop: exactly when it fails (a) *)
 Theorem pinned_value_recognised_outside_known :
-  forall fuel tabs e T word s st ci v to log,
+  forall fuel tabs e T acc word s st ci v to log,
     all_plain (lits_of T) -> plain word = true -> sorted_desc (lits_of T) ->
     assocN s (t_mlit T) = Some st ->
     sdrop ci word = v -> (ci < String.length word)%nat ->
     first_enabled (lits_of T) st v = Some to ->
     (forall id l, In (id, l) (lits_of T) -> String.prefix v l = true -> l = v /\ assocN id st <> None) ->
-    sw_loop (S (S fuel)) Pinned false tabs e T word s ci log = Ok (true, to, String.length word, log).
+    sw_loop (S (S fuel)) Pinned false tabs e T acc word s ci log = Ok (true, to, String.length word, log).
 Proof.
-  intros fuel tabs e T word s st ci v to log Hpl Hpw Hs Hst Hv Hci Hf Hk.
+  intros fuel tabs e T acc word s st ci v to log Hpl Hpw Hs Hst Hv Hci Hf Hk.
   rewrite sw_loop_S.
   assert (Nat.leb (String.length word) ci = false) as -> by (apply Nat.leb_gt; exact Hci).
   cbv zeta. rewrite Hst, Hv. unfold lit_loop.
@@ -125,14 +126,14 @@ Proof.
 Qed.
 
 Theorem pinned_value_refused :
-  forall fuel tabs e T word s st ci v log,
+  forall fuel tabs e T acc word s st ci v log,
     all_plain (lits_of T) -> plain word = true -> sorted_desc (lits_of T) ->
     assocN s (t_mlit T) = Some st ->
     sdrop ci word = v -> (ci < String.length word)%nat ->
     (exists id l, In (id, l) (lits_of T) /\ String.prefix v l = true /\ l <> v) ->
-    sw_loop (S fuel) Pinned false tabs e T word s ci log = Ok (false, s, ci, log).
+    sw_loop (S fuel) Pinned false tabs e T acc word s ci log = Ok (false, s, ci, log).
 Proof.
-  intros fuel tabs e T word s st ci v log Hpl Hpw Hs Hst Hv Hci Hex.
+  intros fuel tabs e T acc word s st ci v log Hpl Hpw Hs Hst Hv Hci Hex.
   rewrite sw_loop_S.
   assert (Nat.leb (String.length word) ci = false) as -> by (apply Nat.leb_gt; exact Hci).
   cbv zeta. rewrite Hst, Hv. unfold lit_loop.
@@ -144,16 +145,16 @@ Qed.
 
 (** *** (b) a partially typed value: the loop stops in front of it ... *)
 Theorem fixed_partial_stops :
-  forall var fuel tabs e T word s st ci log,
+  forall var fuel tabs e T acc word s st ci log,
     var <> Pinned -> strdom var (lits_of T) word -> sorted_desc (lits_of T) ->
     assocN s (t_mlit T) = Some st ->
     (exists id v to, In (id, v) (lits_of T) /\ assocN id st = Some to
                      /\ String.prefix (sdrop ci word) v = true /\ sdrop ci word <> v) ->
-    exists m, sw_loop (S fuel) var true tabs e T word s ci log = Ok (m, s, ci, log).
+    exists m, sw_loop (S fuel) var true tabs e T acc word s ci log = Ok (m, s, ci, log).
 Proof.
-  intros var fuel tabs e T word s st ci log Hvar Hdom Hs Hst Hex.
+  intros var fuel tabs e T acc word s st ci log Hvar Hdom Hs Hst Hex.
   rewrite sw_loop_S.
-  destruct (Nat.leb (String.length word) ci); [now exists true|].
+  destruct (Nat.leb (String.length word) ci); [eexists; reflexivity|].
   cbv zeta. rewrite Hst. fold (lits_of T).
   rewrite (lit_loop_nonpinned var true st _ (lits_of T) Hvar (strdom_sdrop var _ word ci Hdom)). cbn [obind].
   rewrite (fixed_stops_at_partial st _ (lits_of T) Hs Hex).
@@ -187,17 +188,17 @@ Qed.
 
 (** *** the literal prefix piece of the word is consumed first *)
 Theorem fixed_piece_consumed :
-  forall var fuel complete tabs e T word s st ci lid lit to log,
+  forall var fuel complete tabs e T acc word s st ci lid lit to log,
     var <> Pinned -> strdom var (lits_of T) word ->
     assocN s (t_mlit T) = Some st ->
     (forall id l t, In (id, l) (lits_of T) -> assocN id st = Some t -> id = lid /\ l = lit) ->
     In (lid, lit) (lits_of T) -> assocN lid st = Some to ->
     String.prefix lit (sdrop ci word) = true ->
     (ci < String.length word)%nat ->
-    sw_loop (S fuel) var complete tabs e T word s ci log
-    = sw_loop fuel var complete tabs e T word to (ci + String.length lit) log.
+    sw_loop (S fuel) var complete tabs e T acc word s ci log
+    = sw_loop fuel var complete tabs e T acc word to (ci + String.length lit) log.
 Proof.
-  intros var fuel complete tabs e T word s st ci lid lit to log Hvar Hdom Hst Hu Hin Ha Hp Hl.
+  intros var fuel complete tabs e T acc word s st ci lid lit to log Hvar Hdom Hst Hu Hin Ha Hp Hl.
   rewrite sw_loop_S.
   assert (Nat.leb (String.length word) ci = false) as -> by (apply Nat.leb_gt; lia).
   cbv zeta. rewrite Hst. fold (lits_of T).
